@@ -1,8 +1,19 @@
-import Flatland.JsonUtil
+import Flatland.TreeJson
 open Lean Flatland.J
 namespace Flatland.Run.C10
+open Flatland.Tree Flatland.C08 Flatland.TreeJson
 
-/-- JSON case in, JSON observation out (stub until the model of C10 is written). -/
-def run (_j : Json) : Except String Json := .error "model runner for C10 not implemented yet"
+/-- the mapping at the root as `dict.items()` shows it: key, label, class, name, parent, value -/
+def view (s : St) (_r : Option StepObs) : Json :=
+  let rows := s.root.kids.map (fun c =>
+    Json.arr #[ofChars c.key, lab s c.id, ofNat c.sch.info.cid, ofOpt ofChars c.name,
+      (match c.parent with
+       | none => Json.null
+       | some p => lab s p),
+      rawJson (valueOf c)])
+  obj [("items", Json.arr rows.toArray)]
+
+def run (j : Json) : Except String Json := do
+  runCase (← parseCase j) view
 
 end Flatland.Run.C10
